@@ -57,6 +57,7 @@ var (
 	reInvViol = regexp.MustCompile(`^Error: Invariant (\S+) is violated`)
 	reActProp = regexp.MustCompile(`^Error: Action property (\S+) is violated`)
 	reSimStat = regexp.MustCompile(`^The number of states generated: (\d+)`)
+	reInvFalse = regexp.MustCompile(`^Error: The invariant of (\S+) is equal to FALSE`)
 )
 
 // unquoteTLA undoes TLC's string printing ("..." with \" and \\ escapes).
@@ -187,6 +188,8 @@ func RunTLC(o TLCOpts) (*TLCResult, error) {
 				} else if m := reDepth.FindStringSubmatch(line); m != nil {
 					res.Depth, _ = strconv.Atoi(m[1])
 				} else if m := reInvViol.FindStringSubmatch(line); m != nil {
+					res.Status = "invariant:" + m[1]
+				} else if m := reInvFalse.FindStringSubmatch(line); m != nil {
 					res.Status = "invariant:" + m[1]
 				} else if m := reActProp.FindStringSubmatch(line); m != nil {
 					res.Status = "invariant:" + m[1]
